@@ -279,7 +279,56 @@ def sx_in(x, c, neg):
 _PCT = re.compile(r"%(?:\((\w+)\))?([-#0 +]*)(\*|\d+)?(?:\.(\*|\d+))?([sdrxXiaoeEfFgGc%])")
 
 
+def _sym_template_mod(tmpl, r):
+    """`template % args` where the template itself holds symbolic characters: positions of '%' and the
+    conversion characters are decided by forking; flags / widths / mapping keys in a symbolic position are unsupported"""
+    args = r if isinstance(r, tuple) else (r,)
+    cells = tmpl.c
+    out = []
+    ai = 0
+    i, n = 0, builtins.len(cells)
+    D = SymSeq._decide
+    while i < n:
+        c = cells[i]
+        if not D(tmpl._ceq(c, 37)):
+            out.append(c)
+            i += 1
+            continue
+        if i + 1 >= n:
+            raise ValueError("incomplete format")
+        nx = cells[i + 1]
+        if D(tmpl._ceq(nx, 37)):
+            out.append(37)
+        elif D(SymSeq._cin(nx, (115, 100, 114, 105))):  # s d r i
+            if ai >= builtins.len(args):
+                raise TypeError("not enough arguments for format string")
+            v = args[ai]
+            ai += 1
+            if D(tmpl._ceq(nx, 115)):
+                piece = format_value(v, "s", "") if has_sym(v) else builtins.str(v)
+            elif D(tmpl._ceq(nx, 114)):
+                piece = format_value(v, "r", "") if has_sym(v) else builtins.repr(v)
+            else:
+                if isinstance(v, SymInt):
+                    piece = format_value(v, None, "")
+                elif isinstance(v, builtins.int):
+                    piece = builtins.str(v)
+                else:
+                    raise TypeError("%d format: a real number is required, not " + type(v).__name__)
+            out.extend(lift(piece).c)
+        elif D(SymSeq._cin(nx, tuple(b"#0- +123456789.*(lhLxXoeEfFgGca"))):
+            raise Unsupported("%-format flags / other conversions at a symbolic position")
+        else:
+            raise ValueError("unsupported format character")
+        i += 2
+    if ai != builtins.len(args) and not isinstance(r, builtins.dict):
+        raise TypeError("not all arguments converted during string formatting")
+    return SymStr(out).simplify()
+
+
 def sx_mod(l, r):
+    if isinstance(l, SymStr):
+        return _sym_template_mod(l, r)
     if isinstance(l, (builtins.str, builtins.bytes)) and has_sym(r):
         if isinstance(l, builtins.bytes):
             raise Unsupported("bytes %% symbolic")
